@@ -71,6 +71,22 @@ func (e *Enc) callCommon(c *ssa.CallCommon, pos token.Pos, hint string, rt types
 		w.assumedUsed[key] = true
 	}
 	vars := bindParams(callee.Signature, args)
+	if callee == e.fn || (callee.Origin() != nil && callee.Origin() == e.fn.Origin()) {
+		// direct recursion: the variant must be smaller (and bounded below) at the recursive call
+		if e.c.Decreases == nil {
+			panic(unsupported("recursive call without a function-level decreases clause"))
+		}
+		entryV := e.env(e.entry, e.entry, nil).tr(e.c.Decreases.Expr, mathIntType)
+		callEnv := &Env{w: w, pkg: e.pkgOf(ct), vars: vars, pre: e.cur, cur: e.cur, W0: e.cur.W, decl: e.declare, useMem: e.useMem, ghost: e.ghost}
+		callV := callEnv.tr(e.c.Decreases.Expr, mathIntType)
+		var g string
+		if entryV.Sort == "Int" {
+			g = and("(<= 0 "+entryV.S+")", "(< "+callV.S+" "+entryV.S+")")
+		} else {
+			g = and("(bvsle "+w.reg.zero(entryV.T)+" "+entryV.S+")", "(bvslt "+callV.S+" "+entryV.S+")")
+		}
+		e.oblige("decreases", fmt.Sprintf("recursion@%d", e.callOrdinal("self", pos)), g, "variant of the recursion: "+e.c.Decreases.Text, e.c.Decreases.Props, pos)
+	}
 	if m := ct.Options["callback"]; m != "" {
 		// same protocol as for invokes: shared result terms, then the implementors' contracts
 		rts := resultTypes(callee.Signature)
@@ -352,6 +368,12 @@ func (e *Enc) callWrites(c *ssa.CallCommon) []MemRef {
 	}
 	var out []MemRef
 	for _, ct := range cts {
+		for _, g := range ct.GhostSets {
+			if gt, ok := w.cs.GhostFields[g.Field]; ok {
+				scratchEnv := &Env{w: w, pkg: e.pkgOf(ct)}
+				out = append(out, w.ghostMem(g.Field, scratchEnv.evalTypeStr(gt)))
+			}
+		}
 		for _, m := range ct.Modifies {
 			// type-level evaluation: translate with dummy vars to learn the memory
 			out = append(out, e.modMems(ct, m)...)
